@@ -62,7 +62,9 @@ _warm()
 AGENTS = ["a2", "a5", "a1", "a4", "a3", "a6"]
 COMPS = ["c3", "c1", "c2", "c6", "c4", "c5"]
 PENALTY = 10000   # "return an 'high enough' (10 000) value when it is not satisfied" (docstrings of reparation/__init__.py)
-FORMS = ["kwargs", "assignment_cost", "dict", "list"]
+# '-reordered': the same assignment with its keys in another order than the constraint's scope (MGM evaluates its constraints on
+# the dict of its neighbours' values, whose order is the arrival order of their messages)
+FORMS = ["kwargs", "assignment_cost", "dict", "list", "kwargs-reordered", "dict-reordered"]
 
 
 def _bits(n):
@@ -75,6 +77,11 @@ def _evaluate(env, c, asg, form, noise=None):
     filters them, this is how MGM2 evaluates its constraints)"""
     from pydcop.dcop import relations as R
     scope = {v.name: asg[v.name] for v in c.dimensions}
+    if form in ("kwargs-reordered", "dict-reordered"):
+        items = list(scope.items())
+        items = items[1::2] + items[0::2][::-1]        # a permutation that is neither the scope order nor its reverse
+        scope = dict(items)
+        form = form.split("-")[0]
     if form == "kwargs":
         return env.call(lambda: c(**scope))
     if form == "dict":
@@ -350,7 +357,7 @@ def h_comm(env):
     pairs = [(v, a) for v, ags in p["cneigh"].items() for a in ags]
     needed = [local] + [bv[(v, a)].name for v, a in pairs]
     form = env.choice("form", FORMS)
-    if form in ("kwargs", "dict", "list"):
+    if form in ("kwargs", "dict", "list", "kwargs-reordered", "dict-reordered"):
         # these call paths take the values of the constraint's own scope: the scope must carry what the sum needs
         env.prove("comm.scope-has-the-local-variable-and-every-candidate-neighbour-variable",
                   set(needed) <= set(_scope_names(c)), detail=lambda: (_scope_names(c), needed))
